@@ -1,7 +1,10 @@
 import PhyVerif.Model.C18
 import PhyVerif.Model.C18b
+import PhyVerif.Model.C18c
 import PhyVerif.Spec.C18
+import PhyVerif.Spec.C18c
 import PhyVerif.Lemmas.C18
+import PhyVerif.Lemmas.C18t
 /-!
 # C18 — JSON, TSV/CSV and parameter-file serialisation round-trips values and types
 Only property theorems + non-vacuity examples; proofs in `Lemmas/C18.lean`.
@@ -111,7 +114,129 @@ theorem tsv_first_field_first (render : Cell → String) (rows : List (List (Str
     (hw : writeTsv render rows (some f) = some file) : file.1.head? = some f :=
   Lemmas.tsv_first_field_first render rows f hf file hw
 
+/-! ### table files at the character level (`Model/C18c.lean`) -/
+
+/-- The csv transport contract, proved for the model of `csv.writer(f, delimiter=d)` /
+`csv.reader(f, delimiter=d)` (QUOTE_MINIMAL, doubled quotes): a record is read back as the same
+fields for ARBITRARY field strings — the other delimiter, quotes, spaces, empty fields, one single
+empty field (written `""`), no field at all — provided the delimiter is not the quote character. -/
+theorem csv_line_roundtrip (d : Char) (hd : d ≠ '"') (fs : List Str) :
+    csvParseLine d (csvRow d fs) = fs :=
+  Lemmas.csv_line_roundtrip d hd fs
+
+/-- Whole files: records whose fields contain no line break, written with `\r\n` terminators into a
+file opened with `newline=''` and read back line by line in universal-newline mode.  (A cell
+containing `\r` is outside: the real reader turns it into `\n`, _misc.py:244 opens without
+`newline=''`; a cell containing `\n` spans two physical lines, which the line-based reader model does
+not follow.) -/
+theorem csv_file_roundtrip (d : Char) (hq : d ≠ '"') (hd : d ≠ '\r' ∧ d ≠ '\n') (rows : List (List Str))
+    (h : ∀ r ∈ rows, ∀ f ∈ r, NoBreak f) : csvRead d (csvWrite d rows) = rows :=
+  Lemmas.csv_file_roundtrip d hq hd rows h
+
+/-- `_try_make_number(str(i))` is the integer `i` (Python's `int()` grammar: whitespace, sign,
+underscores between digits). -/
+theorem try_make_number_int (i : Int) : tryMakeNumber (intToStr i) = .int i :=
+  Lemmas.tryMakeNumber_intToStr i
+
+/-- `_try_make_number('%.nf' % x)` (n ≥ 1, x a finite float ±m·2^e) is not an integer but the float
+whose decimal text was written: sign of x, `scaled n x` = |x|·10^n rounded half-even, n digits after
+the point. -/
+theorem try_make_number_fixed (n : Nat) (hn : n ≠ 0) (x : Dbl) :
+    tryMakeNumber (String.ofList (fmtFixed n x)) = .float x.neg (scaled n x) (-(n : Int)) :=
+  Lemmas.tryMakeNumber_fmtFixed n hn x
+
+/-- "float (to the written precision)": the decimal read back differs from |x| by at most half a unit
+of the last written digit (exactly equal when x is an integer). -/
+theorem written_precision (n : Nat) (x : Dbl) :
+    (0 ≤ x.e → scaled n x = x.m * 10 ^ n * 2 ^ x.e.toNat) ∧
+    (x.e < 0 →
+      2 * (scaled n x * 2 ^ (-x.e).toNat) ≤ 2 * (x.m * 10 ^ n) + 2 ^ (-x.e).toNat ∧
+      2 * (x.m * 10 ^ n) ≤ 2 * (scaled n x * 2 ^ (-x.e).toNat) + 2 ^ (-x.e).toNat) :=
+  Lemmas.written_precision n x
+
+/-- Cluster tables, end to end on the text of the file: `write_tsv` (`_pretty_floats` with n digits,
+`str`, csv writer, `\r\n`) followed by `read_tsv` (universal newlines, delimiter sniffed from the
+first line, csv reader, empty cells dropped, `_try_make_number`) returns, per written row, its
+(field, value) pairs in header order with absent fields omitted — integers as the same integers, floats
+as the written decimal, non-numeric strings (containing the other delimiter, quotes, …) as the same
+strings.  Hypotheses = the property's quantifier: cells are integers, finite floats or non-empty strings
+that `int()`/`float()` reject, without line break; field names without line break; for a `.tsv` file the
+rows use at least two field names ("two or more columns": otherwise the header holds no tab and the
+reader takes the file for comma-separated); for a `.csv` file no field name contains a tab (it would
+flip the sniffed delimiter).  n = 4 in `write_tsv`. -/
+theorem cluster_table_roundtrip (isTsv : Bool) (n : Nat) (hn : n ≠ 0) (rows : List (List (String × WCell)))
+    (first : Option String) (hD : ∀ r ∈ rows, ∀ fc ∈ r, WCellOK fc.2)
+    (hnames : ∀ f ∈ fieldsOf rows, NoBreak f.toList)
+    (htsv : isTsv = true → TwoColumns rows)
+    (hcsv : isTsv = false → ∀ f ∈ fieldsOf rows, '\t' ∉ f.toList)
+    (text : Str) (hw : writeTsvFile isTsv (renderW n) rows first = some text) :
+    ∃ file, writeTsv (renderW n) rows first = some file ∧
+      readTsvFile tryMakeNumber text = some (expectedRows file.1 (obsRows (obsW n) rows)) :=
+  Lemmas.cluster_table_roundtrip isTsv n hn rows first hD hnames htsv hcsv text hw
+
+/-- The same for any renderer / parser pair (cells of a domain `D` are rendered non-empty, without line
+break, and parsed to what `obs` says). -/
+theorem table_file_roundtrip {γ δ : Type} (isTsv : Bool) (D : γ → Prop) (render : γ → String)
+    (parse : String → δ) (obs : γ → δ)
+    (hrt : ∀ c, D c → parse (render c) = obs c) (hne : ∀ c, D c → render c ≠ "")
+    (hnb : ∀ c, D c → NoBreak (render c).toList)
+    (rows : List (List (String × γ))) (first : Option String) (hD : ∀ r ∈ rows, ∀ fc ∈ r, D fc.2)
+    (hnames : ∀ f ∈ fieldsOf rows, NoBreak f.toList)
+    (htsv : isTsv = true → TwoColumns rows)
+    (hcsv : isTsv = false → ∀ f ∈ fieldsOf rows, '\t' ∉ f.toList)
+    (text : Str) (hw : writeTsvFile isTsv render rows first = some text) :
+    ∃ file, writeTsv render rows first = some file ∧
+      readTsvFile parse text = some (expectedRows file.1 (obsRows obs rows)) :=
+  Lemmas.table_file_roundtrip isTsv D render parse obs hrt hne hnb rows first hD hnames htsv hcsv text hw
+
+/-- Two-column cluster tables with arbitrary ids: `_write_tsv_simple` followed by `_read_tsv_simple`
+returns the field name and the same dictionary (entries by increasing id; `sortById_perm`: a
+permutation of the saved entries) — integer values as integers, floats as what `float(repr(x))` reads,
+strings that are not numeric literals (the empty string included) as themselves.  Hypotheses: no line
+break in the field name and the values; in a `.csv` file no tab in the field name. -/
+theorem simple_table_roundtrip (isTsv : Bool) (field : String) (data : List (Int × SVal))
+    (hfield : NoBreak field.toList) (hcsv : isTsv = false → '\t' ∉ field.toList)
+    (hvals : ∀ p ∈ data, SValOK p.2) :
+    readTsvSimple (writeTsvSimple isTsv field data) =
+      some (field, (sortById data).map fun p => (p.1, obsS p.2)) :=
+  Lemmas.simple_table_roundtrip isTsv field data hfield hcsv hvals
+
+theorem sortById_perm {α : Type} (l : List (Int × α)) : (sortById l).Perm l :=
+  Lemmas.sortById_perm l
+
 /-! Non-vacuity -/
+-- a .tsv cluster table: int / float / text with the other delimiter, quotes and a tab; an absent field
+example : (writeTsvFile true (renderW 4)
+      [[("cluster_id", .int 0), ("group", .text "good"), ("amp", .float ⟨true, 5404319552844595, -52⟩)],
+       [("group", .text "a\tb, \"c\""), ("cluster_id", .int (-3))]] (some "cluster_id")) =
+    some "cluster_id\tamp\tgroup\r\n0\t-1.2000\tgood\r\n-3\t\t\"a\tb, \"\"c\"\"\"\r\n".toList := by decide
+example : readTsvFile tryMakeNumber
+      "cluster_id\tamp\tgroup\r\n0\t-1.2000\tgood\r\n-3\t\t\"a\tb, \"\"c\"\"\"\r\n".toList =
+    some [[("cluster_id", .int 0), ("amp", .float true 12000 (-4)), ("group", .text "good")],
+          [("cluster_id", .int (-3)), ("group", .text "a\tb, \"c\"")]] := by decide +kernel
+example : WCellOK (.text "a\tb, \"c\"") ∧ WCellOK (.text "good") ∧ WCellOK (.text "1e") ∧
+    ¬ NonNumeric "1e5" ∧ ¬ NonNumeric " 12 " ∧ ¬ NonNumeric "nan" := by
+  refine ⟨⟨⟨by decide, by decide⟩, by decide⟩, ⟨⟨by decide, by decide⟩, by decide⟩,
+    ⟨⟨by decide, by decide⟩, by decide⟩, ?_, ?_, ?_⟩ <;> (intro h; exact absurd h.2 (by decide))
+example : TwoColumns [[("cluster_id", WCell.int 0), ("group", .text "good")]] :=
+  ⟨"cluster_id", "group", by decide, by simp [fieldsOf], by simp [fieldsOf]⟩
+-- one column in a .tsv file: the header holds no tab, the file is read as comma-separated
+example : (writeTsvFile true (renderW 4) [[("a", .text "x,y")]] none).bind (readTsvFile tryMakeNumber) =
+    some [[("a", .text "x"), ("a", .text "y")]] ∨
+    (writeTsvFile true (renderW 4) [[("a", .text "x,y")]] none).bind (readTsvFile tryMakeNumber) ≠
+    some [[("a", .text "x,y")]] := Or.inr (by decide)
+-- '%.4f': ties go to the even digit (0.03125 -> 0.0312, 0.09375 -> 0.0938), -0.0 keeps its sign
+example : fmtFixed 4 ⟨false, 1, -5⟩ = "0.0312".toList ∧ fmtFixed 4 ⟨false, 3, -5⟩ = "0.0938".toList ∧
+    fmtFixed 4 ⟨true, 0, 0⟩ = "-0.0000".toList ∧ fmtFixed 4 ⟨false, 123, 0⟩ = "123.0000".toList := by decide
+-- a two-column .csv table
+example : writeTsvSimple false "group" [(3, .text "a,b"), (-1, .int 5), (2, .float "0.25")] =
+    "cluster_id,group\r\n-1,5\r\n2,0.25\r\n3,\"a,b\"\r\n".toList ∧
+    readTsvSimple "cluster_id,group\r\n-1,5\r\n2,0.25\r\n3,\"a,b\"\r\n".toList =
+      some ("group", [(-1, .int 5), (2, .float false 25 (-2)), (3, .text "a,b")]) := by decide
+example : FloatLit "30000.0" ∧ FloatLit "1e-05" ∧ FloatLit "-2.5" :=
+  ⟨⟨false, 300000, -1, by decide⟩, ⟨false, 1, -5, by decide⟩, ⟨true, 25, -1, by decide⟩⟩
+example : csvParseLine ',' (csvRow ',' ["a,b".toList, [], "q\"r".toList]) = ["a,b".toList, [], "q\"r".toList] ∧
+    csvRow ',' [[]] = "\"\"".toList ∧ csvParseLine ',' [] = [] := by decide
 example : decode (encode (.arr "int32" [3] [1] 0 [1, 2, 3])) = .list (.cons (.int 1) (.cons (.int 2) (.cons (.int 3) .nil))) := by
   rfl
 -- a reversed view `a[::-1]` of a buffer of 3 items
